@@ -16,35 +16,35 @@ WORKERS = int(os.environ.get("VERIF_WORKERS", "16"))
 
 # property -> units. A unit is (binary, world, share of workers, quick runs, thorough runs)
 PROPS = {
-    "C01": dict(level="exploration", units=[("agg_theta", "c01", 16, 8000, 400000)],
+    "C01": dict(level="exploration", units=[("agg_theta", "c01", 16, 30000, 600000)],
                 rule="a run = one seeded history over a pool of up to 4 update theta sketches (typed updates of every overload, batches, permuted and redelivered batches, trim/reset/compact/copy/assign/serialize) with one configuration (lg_k, resize factor, p, seed); the retained entries are compared with the independent hash-threshold model after every step; non-trivial = at least one fault (reorder/dup) or compact/copy/serde step; distinct = distinct plan hash"),
     "C02": dict(level="exploration", units=[("agg_theta", "c02", 16, 100000, 3000000)],
                 rule="a run = 2-6 input sketches (exact/estimating/empty/zero-retained) delivered in scheduler order, multiplicity and physical form (update, compact ordered/unordered, deserialized v3/v4, wrapped v3/v4, lvalue/rvalue) to a stateful union, intersection and a-not-b with interleaved get_result/reset; the result is compared with the set-algebra model after every delivery; non-trivial = at least one delivery; distinct = distinct plan hash"),
-    "C03": dict(level="exploration", units=[("agg_hll", "c03", 16, 1600, 60000)],
+    "C03": dict(level="exploration", units=[("agg_hll", "c03", 16, 5000, 80000)],
                 rule="a run = one logical stream fed to 8 HLL sketch variants (HLL_4/6/8 lazily grown, started full-size, permuted order, redelivered batches) with type conversions and serialize/deserialize mid-history; every variant's coupon set or register array (HLL_8 updatable image of a copy) is compared with the independent coupon model after every step; non-trivial = reorder/dup fault or conversion; distinct = distinct plan hash"),
     "C04": dict(level="exploration", units=[("agg_hll", "c04", 16, 16000, 400000)],
                 rule="a run = 2-6 input sketches (lg_k 4..12, three types, list/set/HLL mode, empty, started full-size) and raw items delivered to one hll_union in scheduler order and multiplicity, lvalue/rvalue, with get_result/estimate reads and resets interleaved; result lg_k and registers/coupons compared with the model after every delivery; non-trivial = at least one sketch delivery; distinct = distinct plan hash"),
-    "C05": dict(level="exploration", units=[("agg_cpc", "c05", 16, 6000, 150000)],
+    "C05": dict(level="exploration", units=[("agg_cpc", "c05", 16, 15000, 200000)],
                 rule="a run = up to 4 CPC sketches (lg_k 4..10) driven across every flavor boundary with typed updates, serialize/deserialize at every stage (restored sketch continues), a cpc_union fed sketches of unequal lg_k in scheduler order with duplicates and interleaved get_result; coupon count vs independent (row,col) model, re-offer probe, validate(), equal-(lg_k,C) estimate identity; non-trivial = union delivery, restore or probe; distinct = distinct plan hash"),
-    "C07": dict(level="exploration", units=[("quant", "c07", 16, 1600, 40000)],
+    "C07": dict(level="exploration", units=[("quant", "c07", 16, 4000, 50000)],
                 rule="a run = a pool of 4 kll / req (HRA or LRA) / classic quantiles sketches over float, string or instrumented items driven by seeded batches (sorted, reversed, random, constant, duplicates, NaN), merge trees (equal/unequal k, empty/exact/estimating operands, lvalue/rvalue), copies and restores, with reader steps (sorted view, rank, quantile, CDF, PMF, invalid queries) interleaved; the coin source is seeded or adversarial (all-0, all-1, alternating); n, extremes, iterator weights and the space bound are checked after every step on every live sketch; non-trivial = at least one merge, restore, reader or adversarial coin; distinct = distinct plan hash"),
     "C08": dict(level="exploration", units=[("quant", "c08", 12, 24000, 1000000), ("quant", "c08s", 4, 60, 600)],
                 rule="a run = one short seeded history (updates, merges, k minimal) executed with the library's coin owned by the simulator: for kll and classic quantiles every operation is re-executed from a copied pre-state once per outcome of the draws it requests (complete draw tree) and the exact integer martingale identity is checked at every retained item; for req the whole history is replayed under every coin sequence (<= 14 draws) and the mean rank count must equal the true count exactly; non-trivial = at least one operation that flipped a coin; distinct = distinct plan hash; world c08s: per run one long stream (k, arrival order ascending/descending/permuted/zig-zag, 40k..1000k items, one sketch or three sketches merged) replayed under 300 (thorough 1000) coin sequences owned by the simulator: per query point the number of sequences in which the published error (kll/classic: get_normalized_rank_error single- and double-sided at 99%; req: get_rank_lower/upper_bound at 1, 2, 3 standard deviations, and zero-width bounds = exact) fails is tested against the claimed rate by the exact binomial tail at 1e-12"),
-    "C12": dict(level="exploration", units=[("addagg", "c12", 16, 1600, 60000)],
+    "C12": dict(level="exploration", units=[("addagg", "c12", 16, 8000, 100000)],
                 rule="a run = 3 frequent_items sketches (int64/int64 weights or string/uint64 weights, lg_max 3..8) fed skewed, uniform and all-distinct weighted streams with zero weights, merged in scheduler order (lvalue/rvalue), copied and restored; exact weight map per sketch; bracket, max-error, total-weight and epsilon clauses for every item and 16 unseen items after every step; result-set guarantees at thresholds around the actual weights; non-trivial = merge/restore/read; distinct = distinct plan hash"),
-    "C13": dict(level="exploration", units=[("agg_tuple", "c13", 16, 6000, 200000)],
+    "C13": dict(level="exploration", units=[("agg_tuple", "c13", 16, 30000, 400000)],
                 rule="a run = 3 update tuple sketches of one summary kind (double with sum policy, an ordered list whose policy appends - non-commutative and move-aware -, array of doubles with 1-4 columns) fed typed keys and batches with repeated keys, reset/trim/compact/copy, delivered in every physical form (update, compact ordered/unordered, moved) to a stateful tuple union, intersection and a-not-b with interleaved reads, plus filter(); per-key fold model over an independent hash; every retained key's summary compared after every step; non-trivial = set-operation delivery, compact or copy; distinct = distinct plan hash"),
     "C14": dict(level="exploration", units=[("addagg", "c14", 16, 4000, 100000)],
                 rule="a run = 3 count-min sketches of one configuration (W in u64/i64/double, 1..255 hashes, 3..1000 buckets, seed) fed integer and string items, merged as a tree, restored, with refused merges; exact counts and a shadow sketch fed the concatenated streams; never-underestimate, bounds, total weight after every step and cell-by-cell linearity after every merge; distinct = distinct plan hash"),
-    "C16": dict(level="exploration", units=[("addagg", "c16", 12, 30000, 800000), ("addagg", "c16s", 4, 64, 1200)],
-                rule="a run = 3 var_opt sketches (k 1..100, resize factors) fed unique items with uniform/exponential/heavy-tailed/increasing/decreasing/one-giant weights, unions of 2-3 sketches in scheduler order through var_opt_union (lvalue/rvalue, serialized and restored), restores, resets, refused weights; the library's draws come from the simulator (10% of runs replace one draw by an extreme); n, sample count, membership, heavy items exact, weight conservation, subset sums after every step; world c16s: per run one small weighted stream (single sketch, two sketches of different k united, or checkpoint/restore in mid-stream) replayed under 40000 (thorough 100000) draw sequences owned by the simulator, mean per-item and odd-subset estimates within the 1e-13 empirical-Bernstein bound of the true weights; distinct = distinct plan hash"),
+    "C16": dict(level="exploration", units=[("addagg", "c16", 10, 30000, 800000), ("addagg", "c16s", 4, 64, 1200), ("addagg", "c16u", 2, 6000, 150000)],
+                rule="a run = 3 var_opt sketches (k 1..100, resize factors) fed unique items with uniform/exponential/heavy-tailed/increasing/decreasing/one-giant weights, unions of 2-3 sketches in scheduler order through var_opt_union (lvalue/rvalue, serialized and restored), restores, resets, refused weights; the library's draws come from the simulator (10% of runs replace one draw by an extreme); n, sample count, membership, heavy items exact, weight conservation, subset sums after every step; world c16s: per run one small weighted stream (single sketch, two sketches of different k united, or checkpoint/restore in mid-stream) replayed under 40000 (thorough 100000) draw sequences owned by the simulator, mean per-item and odd-subset estimates within the 1e-13 empirical-Bernstein bound of the true weights; distinct = distinct plan hash; world c16u: unions of 2-4 string sketches of different k and fill into a union with a larger max_k (get_result migrates marked items by decreasing k): every sample is an input string, none twice, n and total weight are the combined ones, and every heap block the item strings took is returned"),
     "C17": dict(level="exploration", units=[("addagg", "c17", 16, 40000, 1000000)],
                 rule="a run = 3 t-digests (double/float, k 10..200) fed sorted/reversed/random/clustered/constant/duplicate-heavy/dyadic streams and NaN, merged, restored with and without buffer, with reader steps (rank/quantile grids, CDF/PMF, centroid count) whose placement changes the compress points; exact value list per digest; distinct = distinct plan hash"),
-    "C18": dict(level="exploration", units=[("addagg", "c18", 12, 6000, 150000), ("addagg", "c18s", 4, 48, 600)],
+    "C18": dict(level="exploration", units=[("addagg", "c18", 12, 24000, 300000), ("addagg", "c18s", 4, 96, 800)],
                 rule="a run = 3 ebpps sketches (k 1..32, one with 2k+1) fed unique weighted items, merged in both directions (lvalue/rvalue), restored, reset; draws owned by the simulator (10% of runs replace one draw by an extreme); n, cumulative weight, c = min(k, W/wmax), result size floor/ceil of c, membership after every step; world c18s: per run one small weighted stream replayed under 20000 (thorough 40000) draw sequences owned by the simulator, inclusion frequency of every item within the 1e-13 Bernstein bound of w_i*min(1/wmax, k/W); distinct = distinct plan hash"),
     "C20": dict(level="exploration", units=[("addagg", "c20", 16, 10000, 250000)],
                 rule="a run = 3 density sketches (float/double, Gaussian or a harness kernel, k 2..16, dim 1..4) fed points, merged by reference and by move, restored, with wrong-dimension updates/merges; coin bit source seeded or adversarial; n, iterator weights 2^level, membership, retained bound, estimation-mode flag, exact kernel mean before the first compaction after every step; distinct = distinct plan hash"),
-    "C15": dict(level="exploration", units=[("shm", "c15", 16, 24000, 600000)],
+    "C15": dict(level="exploration", units=[("shm", "c15", 16, 150000, 1500000)],
                 rule="a run = one caller memory block of exactly the serialized size and up to 5 views of it or snapshots of it created and destroyed by the scheduler (initialize_by_size owner, writable_wrap, wrap, deserialize from bytes or stream, copies), with typed update / query_and_update / query, union / intersect / invert against compatible and incompatible filters, reset, get_bits_used, serialize, writes through read-only views and view deaths; a bit-array model on an independent XXH64; after every step every view not overtaken by another writer plus a fresh wrap, writable wrap and deserialize of the memory are compared with the model; non-trivial = at least one new view of written memory; distinct = distinct plan hash"),
     "C19": dict(level="exploration", units=[("heap_d", "c19d", 4, 3000, 100000), ("heap_q", "c19q", 5, 3600, 120000), ("heap_m", "c19m", 4, 3000, 100000), ("heap_o", "c19o", 3, 3000, 100000)],
                 rule="a run = a pool of up to 6 live objects of one family (27 family/type instantiations, tracking allocator with arenas, instrumented items for the generic sketches) and an interleaving of construct, update, copy/move construct, copy/move assign, self assign, self move-assign, assignment chains, merge by reference and by move, query, serialize->deserialize into the pool, reset, destroy; per-object expected observation; non-trivial = at least one copy/move/assign/merge/restore; distinct = distinct plan hash; world c19o: the same lifecycle over the ten set-operation types (theta union/intersection/a-not-b, tuple union/intersection/a-not-b with an instrumented summary, array-of-doubles union/intersection, hll union, cpc union) fed whole sketches by reference and by move"),
